@@ -13,6 +13,7 @@ inductive Val
   | absent                 -- no such attribute
   | none                   -- Python `None`
   | atom (n : Nat)         -- any other picklable value
+  | ref (i : Nat)          -- reference to another object of the pickled graph (heap index, see Pickle/Deep.lean)
   | pickled (v : Val)      -- `cp.dumps(v)`
   | fresh                  -- a value re-created by `__setstate__` (new event loop, new pool, `{}`)
   | err                    -- the method raised
